@@ -11,7 +11,15 @@ pub fn parse_l(tok: &str) -> Vec<u64> {
 
 /// `B<hex>` = the bytes; `P<len>:<hex>` = the pattern repeated / truncated to <len> bytes (compact form for
 /// large periodic inputs; an empty pattern stands for a zero byte).
+/// Several such segments may be joined by `+` (concatenation): `P16777000:00+B0102..`.
 pub fn parse_b(tok: &str) -> Vec<u8> {
+    if tok.contains('+') {
+        let mut out = Vec::new();
+        for seg in tok.split('+') {
+            out.extend_from_slice(&parse_b(seg));
+        }
+        return out;
+    }
     if tok.as_bytes()[0] == b'P' {
         let (len, pat) = tok[1..].split_once(':').expect("P<len>:<hex>");
         let len: usize = len.parse().expect("P<len>");
